@@ -371,8 +371,148 @@ fn run_script(out: &mut CaseOut, script: &Script, fault: Option<Fault>, ctx: &se
     Some(RunResult { counts, ops_after_fault })
 }
 
+/// Group commit under a failing write-ahead log: a leader is parked before its WAL append, 2-5
+/// more writers (three unique keys each) queue behind it, the next leader commits them as one group
+/// and the append (or its flush) of exactly that group - or of the parked leader itself - fails.
+/// Every writer must receive its own outcome: an `Ok` means the three keys are readable now and
+/// after the fault is gone and the database reopened; an error means all-or-nothing.
+fn case_group_fault(out: &mut CaseOut, seed: u64, idx: u64) {
+    use crate::director::{set_role, ANY};
+    use raindb::{Batch, WriteOptions};
+    use std::time::Duration;
+    let mut rng = Rng::new(mix(&[seed, idx], "c08-group"));
+    let d = director();
+    d.reset(rng.next_u64());
+    let cfg = Config { memtable: *rng.pick(&[4096usize, 65536]), file: 4096, block: 256, reuse: rng.chance(0.5) };
+    let fs = SimFs::from_image(&dbutil::root_image());
+    let mut sess = Session::new(fs.clone(), cfg);
+    sess.fill_cache = false;
+    if let Err(e) = sess.open() {
+        out.violate("C08/open-failed-without-any-fault-fired", json!({"error": e}));
+        return;
+    }
+    for i in 0..rng.range(0, 20) {
+        let _ = sess.put(format!("pre{i:02}").as_bytes(), format!("p{i}-value").as_bytes());
+    }
+    let fail_group = idx % 3 != 0; // otherwise the parked leader's own append fails
+    let kind = if idx % 2 == 0 { OpKind::Write } else { OpKind::Flush };
+    let mode = [FaultMode::Transient, FaultMode::StickySame, FaultMode::StickyAll][(idx / 6 % 3) as usize];
+    let n_followers = rng.range(2, 6) as u32;
+    let synchronous = rng.chance(0.3);
+    let db = sess.db_arc();
+    let spawn_writer = |role: u32| {
+        let db = std::sync::Arc::clone(&db);
+        std::thread::Builder::new().name(format!("c08-writer-{role}")).spawn(move || {
+            set_role(role);
+            let mut batch = Batch::new();
+            for j in 0..3 {
+                batch.add_put(format!("w{role}-k{j}").into_bytes(), format!("w{role}-value-{j}-unique").into_bytes());
+            }
+            let _g = watch::enter("apply(group member)");
+            let r = db.apply(WriteOptions { synchronous: synchronous && role % 2 == 0 }, batch);
+            drop(db);
+            r.map_err(|e| e.to_string())
+        }).unwrap()
+    };
+    let gate1 = d.arm(1, "write.before_wal", 1);
+    let leader = spawn_writer(1);
+    let mut ctx = json!({"family": "group-commit-under-fault", "config": cfg.describe(), "followers": n_followers,
+        "fault": {"call": kind.name(), "on": "wal", "mode": mode.name(), "hits": if fail_group { "the group formed behind the parked leader" } else { "the parked leader's own append" }}});
+    if !d.wait_arrived(gate1, Duration::from_secs(10)) {
+        d.release_all();
+        let _ = leader.join();
+        out.inconclusive("group-fault: the leader did not reach write.before_wal");
+        sess.close();
+        return;
+    }
+    let mut followers = vec![];
+    for f in 0..n_followers {
+        followers.push((2 + f, spawn_writer(2 + f)));
+        std::thread::sleep(Duration::from_millis(2));
+    }
+    std::thread::sleep(Duration::from_millis(30));
+    let fault = Fault { kind, class: PathClass::Wal, nth: 0, mode, after_effect: false };
+    let mut group_ops = 0u64;
+    if fail_group {
+        // the next arrival at write.before_wal is the leader of the queued writers
+        let gate2 = d.arm(ANY, "write.before_wal", 1);
+        d.release(gate1);
+        if d.wait_arrived(gate2, Duration::from_secs(10)) {
+            group_ops = d.gate_args(gate2).get(1).copied().unwrap_or(0);
+            fs.arm_fault(Some(fault));
+        }
+        d.release(gate2);
+    } else {
+        fs.arm_fault(Some(fault));
+        d.release(gate1);
+    }
+    let mut results: Vec<(u32, Result<(), String>)> = vec![];
+    results.push((1, leader.join().unwrap_or_else(|_| Err("writer panicked".into()))));
+    for (role, h) in followers {
+        results.push((role, h.join().unwrap_or_else(|_| Err("writer panicked".into()))));
+    }
+    drop(db);
+    let fired = fs.fault_fired().0 > 0;
+    ctx["group_ops_at_faulted_append"] = json!(group_ops);
+    ctx["fault_fired"] = json!(fired);
+    ctx["results"] = json!(results.iter().map(|(r, x)| format!("w{r}:{}", if x.is_ok() { "Ok".to_string() } else { "Err".to_string() })).collect::<Vec<_>>());
+    out.add("group_fault_runs", 1);
+    out.add("group_fault_fired", fired as u64);
+    let judge = |out: &mut CaseOut, sess: &Session, when: &str| {
+        for (role, r) in &results {
+            let mut present = 0;
+            let mut read_error = false;
+            for j in 0..3 {
+                match sess.get(format!("w{role}-k{j}").as_bytes()) {
+                    Ok(Some(v)) if v == format!("w{role}-value-{j}-unique").into_bytes() => present += 1,
+                    Ok(Some(v)) => {
+                        out.violate(format!("C08/group-commit/foreign-value/{when}"), json!({"ctx": ctx, "writer": role, "got": show(&v)}));
+                    }
+                    Ok(None) => {}
+                    Err(_) => read_error = true,
+                }
+            }
+            if read_error {
+                out.add("group_fault_read_errors", 1);
+                continue;
+            }
+            if r.is_ok() && present != 3 {
+                out.violate(format!("C08/group-commit/ok-write-not-visible/{when}"), json!({"ctx": ctx, "writer": role, "keys_visible": present}));
+            } else if r.is_err() && present != 0 && present != 3 {
+                out.violate(format!("C08/group-commit/failed-batch-applied-partially/{when}"), json!({"ctx": ctx, "writer": role, "keys_visible": present}));
+            }
+        }
+    };
+    judge(out, &sess, "while-fault-armed");
+    fs.arm_fault(None);
+    sess.close();
+    match sess.open() {
+        Err(e) => out.violate("C08/open-failed-after-fault-removed", json!({"ctx": ctx, "error": e, "files": fs.image().listing()})),
+        Ok(()) => {
+            judge(out, &sess, "after-reopen");
+            sess.close();
+        }
+    }
+    let oks = results.iter().filter(|(_, r)| r.is_ok()).count();
+    if fired {
+        let batches_in_group = if fail_group { (group_ops / 3).min(6) } else { 1 };
+        out.nontrivial(format!("group-fault/{}/{}/{}/group-of-{}/oks{}", kind.name(), mode.name(), if fail_group { "group" } else { "leader" }, batches_in_group, oks.min(2)));
+    } else {
+        out.add("fault_not_reached", 1);
+    }
+    out.sample = Some(ctx);
+}
+
+const GROUP_EVERY: u64 = 20;
+
 pub fn run_case(tier: &str, seed: u64, idx: u64) -> CaseOut {
     let mut out = CaseOut::new();
+    // every 20th case is a group commit under a failing write-ahead log
+    if idx % GROUP_EVERY == GROUP_EVERY - 1 {
+        case_group_fault(&mut out, seed, idx / GROUP_EVERY);
+        return out;
+    }
+    let idx = idx - idx / GROUP_EVERY;
     // every 16th case runs the long-WAL script (history 4), the others rotate over scripts 0-3
     let (history, j) = if idx % 16 == 15 { (4, idx / 16) } else { (idx % HISTORIES, idx / HISTORIES) };
     let script = make_script(history, seed, if tier == "quick" { 150 } else { 220 });
